@@ -13,8 +13,8 @@ import (
 	dbm "github.com/tendermint/tm-db"
 
 	"github.com/tendermint/tendermint/evidence"
-	sm "github.com/tendermint/tendermint/state"
 	tmproto "github.com/tendermint/tendermint/proto/tendermint/types"
+	sm "github.com/tendermint/tendermint/state"
 	"github.com/tendermint/tendermint/types"
 
 	"verif/lib"
@@ -387,6 +387,12 @@ func TestRegressRepeatedValidatorNamedTwice(t *testing.T) {
 	}
 	wire, err := lib.WireEvidence(ev)
 	if err != nil {
+		if strings.Contains(err.Error(), "listed twice") {
+			// since the repair of C07-repeated-member-counted-per-entry the decoder refuses the forged set already:
+			// such evidence cannot even arrive
+			lib.Case(name, lib.FP(2), true)
+			return
+		}
 		t.Fatalf("VERIF-INFRA: %v", err)
 	}
 	errA := pool.AddEvidence(wire)
